@@ -60,6 +60,11 @@ type DB struct {
 	// Notes: problems the database noticed (statements it could not evaluate)
 	Notes  []string
 	nextID uint32
+	// EchoErrors makes every ERR packet quote the failing statement and its parameter values, the way a real
+	// server quotes values ("Incorrect integer value: 'abc' for column …", "Duplicate entry '…' for key …")
+	EchoErrors bool
+	// FailNext makes the next executed statement fail with an ERR packet
+	FailNext bool
 }
 
 func NewDB(defs []TableDef) *DB {
@@ -207,19 +212,40 @@ func (c *dbConn) note(s string) {
 	c.db.mu.Unlock()
 }
 
-func (c *dbConn) fail(err error, sql string) error {
+func (c *dbConn) fail(err error, sql string, params ...Val) error {
 	c.note(err.Error() + ": " + sql)
 	code := uint16(1064)
 	if e, ok := err.(*dbError); ok {
 		code = e.code
 	}
-	return c.p.write(errPacket(code, err.Error()))
+	msg := err.Error()
+	if c.db.EchoErrors {
+		msg += " near '" + sql + "'"
+		for i, p := range params {
+			if p != nil {
+				msg += fmt.Sprintf("; parameter %d = '%s'", i+1, *p)
+			}
+		}
+	}
+	return c.p.write(errPacket(code, msg))
+}
+
+// failNext consumes the FailNext flag.
+func (c *dbConn) failNext() bool {
+	c.db.mu.Lock()
+	defer c.db.mu.Unlock()
+	f := c.db.FailNext
+	c.db.FailNext = false
+	return f
 }
 
 func (c *dbConn) query(sql string) error {
 	stmt, err := c.parser.Parse(sql)
 	if err != nil {
 		return c.fail(errf("syntax error: %v", err), sql)
+	}
+	if c.failNext() {
+		return c.fail(&dbError{1062, "fakemy: injected failure"}, sql)
 	}
 	res, err := c.db.exec(stmt, nil)
 	if err != nil {
@@ -364,9 +390,12 @@ func (c *dbConn) execute(pkt []byte) error {
 	c.db.mu.Lock()
 	c.db.Execs = append(c.db.Execs, rec)
 	c.db.mu.Unlock()
+	if c.failNext() {
+		return c.fail(&dbError{1062, "fakemy: injected failure"}, ps.sql, params...)
+	}
 	res, err := c.db.exec(ps.stmt, params)
 	if err != nil {
-		return c.fail(err, ps.sql)
+		return c.fail(err, ps.sql, params...)
 	}
 	if res.cols == nil {
 		return c.p.write(okPacket(res.affected, 0))
